@@ -7,6 +7,7 @@ import (
 	"fmt"
 	"go/token"
 	"go/types"
+	"strings"
 
 	"golang.org/x/tools/go/ssa"
 )
@@ -151,7 +152,12 @@ func checkC03(c *Check) {
 			for _, rc := range runCalls {
 				rcs = append(rcs, rc)
 			}
-			in, path := Query{Fn: next, Avoid: inSet(rcs)}.FromEntry(isReturn)
+			// the one sound shortcut: the cursor is already past the action (index > len(handlers)), where the
+			// run loop's own condition fails at once
+			isIdx := func(v ssa.Value) bool { return fieldOf(addrOfLoad(strip(v))) == a.fIndex }
+			isHs := func(v ssa.Value) bool { return fieldOf(addrOfLoad(strip(v))) == a.fHandlers }
+			exhausted := union(edgesWhere(next, cCmp(token.GTR, isIdx, vLen(isHs)), true), edgesWhere(next, cCmp(token.LEQ, isIdx, vLen(isHs)), false))
+			in, path := Query{Fn: next, Avoid: inSet(rcs), Cut: exhausted}.FromEntry(isReturn)
 			if in == nil {
 				c.OK(key+":always-runs", p.FuncPos(next), "every path through Next() re-enters the run loop", numInstrs(next))
 			} else {
@@ -368,19 +374,39 @@ func checkChainAssembly(c *Check) {
 	}
 	c.Cond(ok, key+":chain", pos, "handlers = append(append(make(0), f.handlers...), routeHandlers...)", "the per-request chain is not fresh-make + app middleware + route handlers in that order: "+why)
 	// action
-	sa := callsIn(cc, func(n string, cm *ssa.CallCommon) bool { return n == "(flamego.internalContext).setAction" })
+	// the method is called on the new context: through the interface the constructor returns, on the
+	// concrete *context, or on an interface embedded in it (c.SetParent → c.Injector.SetParent)
+	onNew := func(cm *ssa.CallCommon) (bool, []ssa.Value) {
+		isNC := vIs(nc.(*ssa.Call))
+		if cm.IsInvoke() {
+			if isNC(cm.Value) {
+				return true, cm.Args
+			}
+			if r, _, ok := fieldPath(cm.Value); ok && r != nil && isNC(r) {
+				return true, cm.Args
+			}
+			return false, nil
+		}
+		if len(cm.Args) > 0 && isNC(cm.Args[0]) {
+			return true, cm.Args[1:]
+		}
+		return false, nil
+	}
+	sa := callsIn(cc, func(n string, cm *ssa.CallCommon) bool {
+		return n == "(flamego.internalContext).setAction" || n == "(*flamego.context).setAction"
+	})
 	okA := false
 	for _, s := range sa {
-		if vField(f, "action")(s.Common().Args[0]) && vIs(nc.(*ssa.Call))(s.Common().Value) {
+		if on, args := onNew(s.Common()); on && len(args) == 1 && vField(f, "action")(args[0]) {
 			okA = true
 		}
 	}
 	c.Cond(okA, key+":action", p.FuncPos(cc), "the context's action is the application's action", "the application's action is not installed on the per-request context")
 	// parent scope
-	sp := callsIn(cc, func(n string, cm *ssa.CallCommon) bool { return n == "(inject.Injector).SetParent" })
+	sp := callsIn(cc, func(n string, cm *ssa.CallCommon) bool { return strings.HasSuffix(n, ").SetParent") })
 	okP := false
 	for _, s := range sp {
-		if vIs(nc.(*ssa.Call))(s.Common().Value) && f(s.Common().Args[0]) {
+		if on, args := onNew(s.Common()); on && len(args) == 1 && f(args[0]) {
 			okP = true
 		}
 	}
